@@ -154,8 +154,8 @@ type hdrStats struct {
 	Reorgs      int            `json:"reorgs"`
 	MaxHeight   int            `json:"max_height"`
 	Truncated   map[string]int `json:"truncated"`
-	TieStates   int            `json:"tie_states"`  // steps replayed whose expected state has several most-work tips
-	TieStopped  int            `json:"tie_stopped"` // behaviours stopped because the implementation chose another allowed tip
+	TieStates   int            `json:"tie_states"`   // steps replayed whose expected state has several most-work tips
+	TieStopped  int            `json:"tie_stopped"`  // behaviours stopped because the implementation chose another allowed tip
 	TieFollowed int            `json:"tie_followed"` // behaviours with at least one tie state replayed to their end
 }
 
